@@ -162,12 +162,13 @@ fn gen_layout(t: &mut Tape, p: &Profile) -> ErrorLayout {
     if !p.extensions {
         return ErrorLayout::Plain;
     }
-    let weights: [u32; 4] = if p.ext_heavy { [10, 45, 15, 30] } else { [55, 20, 10, 15] };
+    let weights: [u32; 5] = if p.ext_heavy { [10, 35, 15, 25, 15] } else { [55, 17, 10, 12, 6] };
     match t.weighted(&weights) {
         0 => ErrorLayout::Plain,
         1 => ErrorLayout::Compliant(gen_objects(t)),
         2 => ErrorLayout::CompliantNoExt,
-        _ => ErrorLayout::Legacy128(gen_objects(t)),
+        3 => ErrorLayout::Legacy128(gen_objects(t)),
+        _ => ErrorLayout::CompliantShortLength(gen_objects(t)),
     }
 }
 
@@ -587,5 +588,6 @@ pub fn gen_scenario(t: &mut Tape, p: &Profile) -> Scenario {
         light: false,
         mutation: None,
         sniff: false,
+        epoch_liveness: false,
     }
 }
